@@ -160,12 +160,13 @@ PROPS = {
                         "plain (non-vectored) header write goes through std's Write::write_all (trusted std, A1)"],
     },
     "C17": {
+        "verus": ["reader_trace"],
         # the only long loop is the 16-byte sync-marker comparison (memcmp): give it its own bound
         # instead of unwinding every loop and recursion 19 times
         "kani_args": ["CBMC:--unwindset", "CBMC:memcmp.0:18"],
         "level": "other",
         "design_ref": "DESIGN.md §3 C17",
-        "technique": "one contract per transition of the container Reader's state machine (Kani), each from a state written in place, datum decoder abstracted by a seed that ignores its deserializer; Broken / end-of-stream latch contracts; Take sub-reader contracts (null codec)",
+        "technique": "one contract per transition of the container Reader's state machine (Kani), each from a state written in place, datum decoder abstracted by a seed that ignores its deserializer; Broken / end-of-stream latch contracts; Take sub-reader contracts (null codec); Verus lemma composing the transitions into 'error reported once, then end of stream' for call histories of any length",
         "level_text": "Deductive per-transition contracts (not a whole-file proof): from NotInBlock over every body of 0..=3 bytes and every sync marker - empty => end of stream, non-empty => never a silent end of stream, "
                       "EVERY error (cut inside the count varint, inside the size varint, negative count/size, declared size larger than the input) sets the end-of-stream latch; InBlock with objects left => one value per call, "
                       "count - 1, nothing proportional to a hostile declared count; leaving a block over all 16 trailing bytes x all header markers - unconsumed block data => Err, marker differing from the header's => Err, both latched, "
@@ -201,9 +202,10 @@ PROPS = {
 
 
 PROPS["C13"] = {
+    "verus": ["record_order"],
     "level": "other",
     "design_ref": "DESIGN.md §3 C13",
-    "technique": "inductive one-step contracts of the real serialize_record_value from every well-formed state shape of a 3-field record (states built in place), Kani; end() on its error paths",
+    "technique": "inductive one-step contracts of the real serialize_record_value from every well-formed state shape of a 3-field record (states built in place), Kani; end() on its error paths; Verus lemma lifting the step contract to any presentation order of a record of any size",
     "level_text": "Bounded deductive check, exhaustive at its size: the record serializer's core step serialize_record_value is verified from EVERY well-formed (state shape, presented index) pair of a "
                   "3-field record (17 pairs; buffered bytes, value and pool content symbolic; plus two shapes where the early field's encoding is EMPTY - a null field - which must still be recorded as presented, rejected when presented twice, and flushed in turn): the next expected field is written followed by every contiguous already-buffered successor in schema order, "
                   "current_idx / expected_fields advance in step, non-contiguous buffers are kept, a later field is buffered without output, a field presented twice is Err. Because each step is proved "
